@@ -257,7 +257,7 @@ def run_check(prop, tier, runs_override=None):
             small, v2 = sc, v
         path = core.write_replay(prop, small, v2, {
             'seed': seed, 'tier': tier, 'minimiser_executions': used,
-            'interpreter': {'optimize': int(sys.flags.optimize)}})
+            'interpreter': {'config': os.environ.get('PICOSIM_CONFIG')}})
         code, out = core.replay_in_fresh_process(prop, path)
         if code != core.EXIT_VIOLATION:
             log('HARNESS-ERROR: replay %s did not reproduce in a fresh '
@@ -364,46 +364,69 @@ def determinism_slice(prop, tier, jobs, job_digests, runs, n=6):
             'fresh_interpreter_hashseed': '12345', 'mismatching_jobs': bad}
 
 
+CONFIGS = {
+    # name: (interpreter flags, environment, share of the runs)
+    'python -O': (['-O'], {}, 8),
+    'C locale': ([], {'LC_ALL': 'C', 'LANG': 'C', 'PYTHONUTF8': '0',
+                      'PYTHONCOERCECLOCALE': '0',
+                      'PYTHONIOENCODING': ''}, 16),
+    'default-encoding warnings are errors': (
+        ['-X', 'warn_default_encoding', '-W', 'error::EncodingWarning'], {},
+        16),
+}
+
+
 def optimized_slice(prop, tier, runs, plan):
-    if os.environ.get('PICOSIM_NO_OPT') or sys.flags.optimize:
+    """Configuration slices: part of the run is repeated in interpreters
+    started differently - with -O (assert statements compiled out), in the C
+    locale without UTF-8 mode, and with implicit default encodings turned into
+    errors - all legitimate ways to run picotool, in which the properties
+    must hold just the same."""
+    if os.environ.get('PICOSIM_NO_OPT') or os.environ.get('PICOSIM_CONFIG'):
         return {'status': 'skipped'}
-    k = int(plan.get('opt_runs', max(1, runs // 8)))
-    env = dict(os.environ)
-    env['PICOSIM_NO_DET'] = '1'
-    env['PICOSIM_NO_OPT'] = '1'
-    env['PICOSIM_RUNS'] = str(k)
-    env['PICOSIM_OPT_CHILD'] = '1'
-    env['PICOSIM_EVIDENCE_DIR'] = os.path.join(
-        core.scratch_base(), 'picosim-optev-%d' % os.getpid())
-    t0 = time.time()
-    try:
-        p = subprocess.run(
-            [sys.executable, '-O', os.path.join(_HERE, 'main.py'), prop,
-             '--tier', tier], env=env, stdout=subprocess.PIPE,
-            stderr=subprocess.STDOUT, timeout=3600)
-    except subprocess.TimeoutExpired:
-        return {'status': 'harness-error', 'why': 'timed out'}
-    finally:
-        import shutil
-        shutil.rmtree(env['PICOSIM_EVIDENCE_DIR'], ignore_errors=True)
-    out = p.stdout.decode('utf-8', 'replace')
-    res = {'runs_requested': k, 'wall_s': round(time.time() - t0, 1),
-           'interpreter': 'python -O'}
-    m = [ln for ln in out.splitlines() if ' runs in ' in ln]
-    if m:
-        res['summary'] = m[-1][:200]
-    if p.returncode == core.EXIT_VIOLATION:
-        for ln in out.splitlines():
-            if ln.startswith(('VIOLATION ', 'KNOWN-FINDING', '  class:',
-                              '  what:')):
-                log(ln if not ln.startswith('  ') else ln + '   [python -O]')
-        res['status'] = 'violation'
-    elif p.returncode == core.EXIT_HELD:
-        res['status'] = 'ok'
-    else:
-        res['status'] = 'harness-error'
-        res['why'] = out[-1200:]
-    return res
+    out_all = {'status': 'ok', 'configurations': {}}
+    for name, (flags, cenv, share) in CONFIGS.items():
+        k = int(plan.get('opt_runs', max(1, runs // share)))
+        env = dict(os.environ)
+        env.update(cenv)
+        env['PICOSIM_NO_DET'] = '1'
+        env['PICOSIM_NO_OPT'] = '1'
+        env['PICOSIM_RUNS'] = str(k)
+        env['PICOSIM_CONFIG'] = name
+        env['PICOSIM_EVIDENCE_DIR'] = os.path.join(
+            core.scratch_base(), 'picosim-optev-%d' % os.getpid())
+        t0 = time.time()
+        try:
+            p = subprocess.run(
+                [sys.executable] + flags + [os.path.join(_HERE, 'main.py'),
+                                            prop, '--tier', tier],
+                env=env, stdout=subprocess.PIPE, stderr=subprocess.STDOUT,
+                timeout=3600)
+        except subprocess.TimeoutExpired:
+            return {'status': 'harness-error', 'why': name + ': timed out'}
+        finally:
+            import shutil
+            shutil.rmtree(env['PICOSIM_EVIDENCE_DIR'], ignore_errors=True)
+        out = p.stdout.decode('utf-8', 'replace')
+        res = {'runs_requested': k, 'wall_s': round(time.time() - t0, 1)}
+        m = [ln for ln in out.splitlines() if ' runs in ' in ln]
+        if m:
+            res['summary'] = m[-1][:160]
+        if p.returncode == core.EXIT_VIOLATION:
+            for ln in out.splitlines():
+                if ln.startswith(('VIOLATION ', 'KNOWN-FINDING', '  class:',
+                                  '  what:')):
+                    log(ln if not ln.startswith('  ')
+                        else ln + '   [%s]' % name)
+            res['status'] = 'violation'
+            out_all['status'] = 'violation'
+        elif p.returncode == core.EXIT_HELD:
+            res['status'] = 'ok'
+        else:
+            return {'status': 'harness-error',
+                    'why': name + ': ' + out[-1200:]}
+        out_all['configurations'][name] = res
+    return out_all
 
 
 def digest_jobs(prop, tier, spec):
@@ -429,12 +452,16 @@ def digest_jobs(prop, tier, spec):
 
 def run_replay(prop, path):
     doc = core.read_replay(path)
-    want_opt = int((doc.get('interpreter') or {}).get('optimize', 0))
-    if want_opt and not sys.flags.optimize:
-        log('picosim: this replay was recorded under python -O; re-running '
-            'the interpreter with -O')
+    cfg = (doc.get('interpreter') or {}).get('config')
+    if cfg and cfg in CONFIGS and os.environ.get('PICOSIM_CONFIG') != cfg:
+        flags, cenv, _share = CONFIGS[cfg]
+        log('picosim: this replay was recorded in the configuration %r; '
+            're-running the interpreter that way' % cfg)
         sys.stdout.flush()
-        os.execv(sys.executable, [sys.executable, '-O'] + sys.argv)
+        env = dict(os.environ)
+        env.update(cenv)
+        env['PICOSIM_CONFIG'] = cfg
+        os.execve(sys.executable, [sys.executable] + flags + sys.argv, env)
     engine_name, _ = registry.CHECKS[prop]
     engine = registry.load_engine(engine_name)
     sc = doc['scenario']
